@@ -4,3 +4,4 @@ import Omaha.Time
 import Omaha.Cup
 import Omaha.Request
 import Omaha.Response
+import Omaha.Uri
